@@ -2,6 +2,7 @@
 package props
 
 import (
+	_ "verif/mc/props/c01"
 	_ "verif/mc/props/c02"
 	_ "verif/mc/props/c03"
 	_ "verif/mc/props/c10"
